@@ -17,6 +17,7 @@
   Earlier, pairwise results kept: adjacent ⇒ hull in both argument orders, separated ⇒ no merge, any merge is a hull.
 -/
 import PintModel.Model.Range
+import PintModel.Gen.RangeSrc
 import PintModel.Spec.Presence
 set_option linter.unusedSimpArgs false
 namespace Pint.Props.C13
@@ -1744,5 +1745,29 @@ theorem C13_holds : C13_statement := by
   intro start end_ lookback step fp present slices arrival hs hse hplan hperm
   have ok := plan_ok start end_ lookback step hs slices hplan
   exact sliced_eq_unsliced _ step end_ hs fp present slices arrival ok hperm
+
+
+/-! ## the source skeleton the model was translated from
+
+`Model/Range.lean` is a hand translation of six Go functions.  `Gen/RangeSrc` (regenerated from /repo on every run)
+lists, for each of them, every condition, assignment, append and return in source order; the expectations below are
+the lists the translation was made from.  An edit of any of these functions breaks `source_shape` before the
+differential run has to find an input for it. -/
+
+def expected_overlaps : List String := ["if a.Fingerprint != b.Fingerprint", "return c, false", "if a.Start.Sub(b.Start).Abs() <= step && a.End.Sub(b.End).Abs() <= step", "if a.Start.Before(b.Start)", "c.Start = a.Start", "c.Start = b.Start", "if a.End.After(b.End)", "c.End = a.End", "c.End = b.End", "return c, true", "if a.Start.Before(b.Start) && a.End.After(b.Start) && a.End.Before(b.End)", "c.Start = a.Start", "c.End = b.End", "return c, true", "if a.Start.After(b.Start) && a.Start.Before(b.End) && a.End.After(b.End)", "c.Start = b.Start", "c.End = a.End", "return c, true", "if a.Start.Before(b.Start) && a.End.Before(b.End) && a.End.Sub(b.Start).Abs() <= step", "c.Start = a.Start", "c.End = b.End", "return c, true", "if a.Start.After(b.Start) && a.End.After(b.End) && a.Start.Sub(b.End).Abs() <= step", "c.Start = b.Start", "c.End = a.End", "return c, true", "if a.Start.Before(b.Start) && a.End.After(b.End)", "c.Start = a.Start", "c.End = a.End", "return c, true", "if a.Start.Sub(b.Start).Abs() <= step && a.End.After(b.End)", "if a.Start.Before(b.Start)", "c.Start = a.Start", "c.Start = b.Start", "c.End = a.End", "return c, true", "if a.Start.Before(b.Start) && a.End.Sub(b.End).Abs() <= step", "c.Start = a.Start", "if a.End.After(b.End)", "c.End = a.End", "c.End = b.End", "return c, true", "if a.Start.After(b.Start) && a.End.Before(b.End)", "c.Start = b.Start", "c.End = b.End", "return c, true", "return c, false"]
+def expected_mergeRanges : List String := ["range source", "if _, ok = merged[src.Fingerprint]; !ok", "for i := 0; i < len(merged[src.Fingerprint]); i++", "if tr, ok = Overlaps(merged[src.Fingerprint][i], src, step); ok", "merged[src.Fingerprint][i].Start = tr.Start", "merged[src.Fingerprint][i].End = tr.End", "if !found", "append(merged[src.Fingerprint], src)", "if !hadMerged", "return source, false", "range merged", "for ; ok; ", "range merged", "range merged", "append(all, ranges...)", "sort.Stable(all)", "return all, hadMerged"]
+def expected_expandRangesEnd : List String := ["range src", "src[i].End = src[i].End.Add(step - time.Second)"]
+def expected_appendSampleToRanges : List String := ["range vals", "range dst", "if dst[i].Fingerprint != fp", "if !ts.Before(dst[i].Start.Add(step*-1)) && !ts.After(dst[i].Start)", "dst[i].Start = ts", "if !ts.Before(dst[i].Start) &&\n\t!ts.After(dst[i].End.Add(step))", "dst[i].End = ts", "if !found", "append(dst, MetricTimeRange{\n\tFingerprint:\tfp,\n\tLabels:\t\tls,\n\tStart:\t\tts,\n\tEnd:\t\tts,\n})", "return dst"]
+def expected_sliceRange : List String := ["if end.Sub(start) <= resolution", "return []TimeRange{{Start: start, End: end}}", "rstart := start.Round(sliceSize)", "if rstart.After(start)", "if s.End.After(end)", "s.End = end", "append(slices, s)", "for ; rstart.Before(end); ", "if s.End.After(end)", "s.End = end", "append(slices, s)", "rstart = rstart.Add(sliceSize)", "range slices", "if i < len(slices)-1", "slices[i].End = slices[i].End.Add(time.Second * -1)", "return slices"]
+def expected_rangeQuerySlicing : List String := ["queryStep := (time.Hour * 2).Round(step)", "if queryStep < step", "queryStep = step", "if queryStep > lookback", "queryStep = lookback", "slices = append(slices, TimeRange{Start: start, End: end})", "slices = sliceRange(start, end, step, queryStep)", "sliceKey := strconv.FormatUint(query.query.CacheKey(), 10)"]
+theorem source_shape :
+    Pint.Gen.RangeSrc.overlaps = expected_overlaps ∧
+    Pint.Gen.RangeSrc.mergeRanges = expected_mergeRanges ∧
+    Pint.Gen.RangeSrc.expandRangesEnd = expected_expandRangesEnd ∧
+    Pint.Gen.RangeSrc.appendSampleToRanges = expected_appendSampleToRanges ∧
+    Pint.Gen.RangeSrc.sliceRange = expected_sliceRange ∧
+    Pint.Gen.RangeSrc.rangeQuerySlicing = expected_rangeQuerySlicing := by
+  refine ⟨rfl, rfl, rfl, rfl, rfl, rfl⟩
+
 
 end Pint.Props.C13
